@@ -899,7 +899,21 @@ class Executor:
                 raise PyRaise('KeyError', k)
         if isinstance(o, (list, tuple, str)):
             if isinstance(k, Sym):
-                raise Unsupported('symbolic index')
+                if not k.is_int or len(o) > 64:
+                    raise Unsupported('symbolic index')
+                n_ = len(o)
+                if not self.ctx.branch(And(compare('>=', k, -n_), compare('<', k, n_))):
+                    raise PyRaise('IndexError')
+                if isinstance(o, str):
+                    # character with a symbolic code point: no forking
+                    code = ord(o[n_ - 1])
+                    for j in range(n_ - 2, -1, -1):
+                        code = Ite(Or(compare('==', k, j), compare('==', k, j - n_)), ord(o[j]), code)
+                    return mk_str([code])
+                for j in range(n_):
+                    if self.ctx.branch(Or(compare('==', k, j), compare('==', k, j - n_))):
+                        return o[j]
+                raise Infeasible()
             if not isinstance(k, int):
                 raise PyRaise('TypeError', 'indices must be integers')
             try:
